@@ -281,6 +281,8 @@ func generate(prop, tier string, seed uint64, jl *jobList) int {
 		return 64 // real-time scenarios mostly sleep
 	case "panic":
 		genPanic(r, thorough, jl.addPanic)
+	case "panicbatch":
+		genPanicBatch(r, thorough, jl.addPanic)
 	case "pool":
 		genPool(r, thorough, shardIdx, shardCnt, jl)
 		return 1
